@@ -8,6 +8,11 @@
 //     cn2n <n>                             -> column_number_to_name   ok:<hex> | err
 //     grc  <hex>                           -> get_row_column          ok:<r>,<c> | err
 //     gdim <hex>                           -> get_dimension           ok:<r>,<c>,<r>,<c> | err
+//     alnum <cp,cp,...>                    -> one '1'/'0' per code point: char::is_alphanumeric
+//                                             (the oracle the Coq model is parameterised by; the
+//                                             Python driver hands the answer to the model side)
+//   rcn / tok / sheet accept one more trailing argument (the list of non-ASCII alphanumeric
+//   scalars, used by the model side only).
 //   a panic (arithmetic overflow in the checked build) is answered "panic" by main.rs.
 //   The end-to-end route (worksheet_formula on a generated file) goes through the generic
 //   `open` command; `sheet` here reads the file named by args[2] and prints the same canonical
@@ -57,6 +62,17 @@ pub fn run(args: &[&str]) -> String {
             Ok(((a, b), (c, d))) => format!("ok:{},{},{},{}", a, b, c, d),
             Err(_) => "err".to_string(),
         },
+        "alnum" => args[1]
+            .split(',')
+            .filter(|x| !x.is_empty())
+            .map(|x| {
+                let cp: u32 = x.parse().unwrap();
+                match char::from_u32(cp) {
+                    Some(c) if c.is_alphanumeric() => '1',
+                    _ => '0',
+                }
+            })
+            .collect(),
         "sheet" => {
             // args[1] = abstract description (model side), args[2] = path of the generated xlsx,
             // args[3] = hex of the sheet name
